@@ -141,23 +141,24 @@ def run(c: Campaign, jobs: int) -> None:
     from vlib.par import map_raw
 
     windows = [(name, off) for name in TINY for off in ((0, 5) if quick else (0, 4, 8))]
-    lvl1 = map_raw(_dispatch, [(shard_exhaustive, (c.prop, c.tier, c.seed, n_, depth, o_, None, False)) for n_, o_ in windows], jobs)
+    depths = {name: (depth if quick else (6 if name == "t_fork" else 8)) for name in TINY}  # t_fork's tree grows fastest (two initial stages)
+    lvl1 = map_raw(_dispatch, [(shard_exhaustive, (c.prop, c.tier, c.seed, n_, depths[n_], o_, None, False)) for n_, o_ in windows], jobs)
     lvl2_args = []
     for (n_, o_), r in zip(windows, lvl1):
         kids = r.pop("children", [])
         c.merge(r)
         for kid in kids:
-            lvl2_args.append((shard_exhaustive, (c.prop, c.tier, c.seed, n_, depth, o_, [kid], False)))
+            lvl2_args.append((shard_exhaustive, (c.prop, c.tier, c.seed, n_, depths[n_], o_, [kid], False)))
     lvl2 = map_raw(_dispatch, lvl2_args, jobs)
     for a, r in zip(lvl2_args, lvl2):
         kids = r.pop("children", [])
         c.merge(r)
         for i in range(0, len(kids), 4):
-            args.append((shard_exhaustive, (c.prop, c.tier, c.seed, a[1][3], depth, a[1][5], kids[i:i + 4], True)))
+            args.append((shard_exhaustive, (c.prop, c.tier, c.seed, a[1][3], depths[a[1][3]], a[1][5], kids[i:i + 4], True)))
     run_shards(c, _dispatch, args, jobs)
     for name, off in windows:
-        tot = sum(v for k, v in c.extra.items() if k == f"exhaustive:{name}@{off}+{depth}")
-        c.exhaustive_parts.append(f"{name}: every (pending row x ack/lose) choice for deliveries {off}..{off + depth - 1}, FIFO elsewhere: {tot} schedules")
+        tot = sum(v for k, v in c.extra.items() if k == f"exhaustive:{name}@{off}+{depths[name]}")
+        c.exhaustive_parts.append(f"{name}: every (pending row x ack/lose) choice for deliveries {off}..{off + depths[name] - 1}, FIFO elsewhere: {tot} schedules")
     c.rule = ("case = (workflow spec, delivery schedule). Specs: 23-entry core corpus, Hypothesis DAGs (<=6 stages; multi-task, "
               "terminal failure, continue-on-failure, polling, transient, skip), first-of/quorum joins, jump loops. Schedules: list of "
               "(row choice, lose-ack) decisions in four styles incl. a hold-back bias on one message type; R<=3 lost acks per row; "
